@@ -179,6 +179,7 @@ var (
 	errStringLongerThanFormat = errors.New("string longer than format spec")
 	errStringDoesNotFit       = errors.New("string does not fit")
 	errVariableLength         = errors.New("variable-length format") // For packsize only
+	errResultTooLarge         = errors.New("format result too large")
 	errOverflow               = errors.New("invalid format: option size overflow")
 	errStringContainsZeros    = errors.New("string contains zeros")
 
